@@ -106,8 +106,6 @@ Definition chased_eqb (c : chased) (rcode : N) (answer : list rr) : bool :=
   | ChServfail => (rcode =? RC_SERVFAIL) && match answer with [] => true | _ => false end
   | ChMsg rc a => (rc =? rcode) && list_eqb rr_eqb a answer
   end.
-Definition oracle_records (o : oracle) : list rr :=
-  flat_map (fun p => match snd p with SubResp _ a _ => a | SubErr => [] end) o.
 
 (* ------------------------------------------------------- specification side *)
 (* plain prefix test on canonical label lists *)
